@@ -122,7 +122,7 @@ WHILE = {"jax.lax.while_loop"}
 TREE_AT = {"equinox.tree_at"}
 GRAD = {"equinox.filter_value_and_grad", "jax.value_and_grad"}
 VMAP = {"jax.vmap", "equinox.filter_vmap"}
-IDENT_WRAP = {"staticmethod", "classmethod", "equinox.filter_jit", "jax.jit", "functools.wraps"}
+IDENT_WRAP = {"staticmethod", "classmethod", "equinox.filter_jit", "jax.jit"}
 PARTIAL = {"functools.partial"}
 
 BUILTINS = {
@@ -258,7 +258,11 @@ class Builder:
         elif isinstance(s, ast.Return):
             raise _Return(self.snap(self.ev(s.value, env, ctx)) if s.value is not None else NONE)
         elif isinstance(s, ast.FunctionDef):
-            env[s.name] = Closure(s, env, ctx, s.name)
+            v = Closure(s, env, ctx, s.name)
+            for dec in reversed(s.decorator_list):
+                d = self.ev(dec, env, ctx)
+                v = self.snap(self.mk_call(d, (self.snap(v),), (), ctx, lineno=s.lineno))
+            env[s.name] = v
         elif isinstance(s, ast.If):
             if self.decide(self.ev(s.test, env, ctx), s):
                 self.run(s.body, env, ctx)
@@ -483,6 +487,8 @@ class Builder:
             idx = self.ev_slice(t.slice, env, ctx)
             if isinstance(t.value, ast.Name) and isinstance(base, tuple) and base[0] == "dict":
                 env[t.value.id] = ("dict", tuple((k, x) for k, x in base[1] if k != idx) + ((idx, v),))
+            elif isinstance(t.value, ast.Name) and t.value.id in env:
+                env[t.value.id] = ("setitem", base, idx, v)  # local container mutation, modelled functionally
             else:
                 self.effects.append(("setitem", ("tuple", (base, idx, v)), t.lineno))
         elif isinstance(t, ast.Starred):
@@ -636,8 +642,8 @@ class Builder:
             # NamedTuple-style positional access
             if idx[1] < len(base[2]):
                 return base[2][idx[1]][1]
-        if idx[0] == "const" and isinstance(idx[1], int) and isinstance(base, tuple) and base[0] in ("call", "item", "ite"):
-            return self.item(base, idx[1]) if base[0] != "call" or True else ("sub", base, idx)
+        if idx[0] == "const" and isinstance(idx[1], int) and not isinstance(idx[1], bool) and idx[1] >= 0 and isinstance(base, tuple):
+            return self.item(base, idx[1])  # x[i] and the i-th element of an unpacking are one node kind
         return ("sub", base, idx)
 
     def comp(self, e, env, ctx):
@@ -869,6 +875,8 @@ class Builder:
             return ("listmut", f[2], f[1], args)
         if isinstance(f, Closure):
             return self.call_closure(f, args, kwargs, lineno)
+        if isinstance(f, tuple) and f[0] == "call" and f[1] == ("global", "functools.wraps") and len(args) == 1 and not kwargs:
+            return args[0]
         if isinstance(f, tuple):
             k = f[0]
             if k == "global":
